@@ -165,20 +165,26 @@ def moment (xs : List Val) (c : Val) (n : Nat) : Except Err Val := do
     Val.div s (.int xs.length)
   else pure .none
 
+/-- `_moment(x, c, n)` on a Python value `x` -/
+def momentV (acc c : Val) (n : Nat) : Except Err Val := do
+  let xs ← acc.elemsE
+  moment xs c n
+
+/-- rxsci/math/formal/variance.py `_variance` -/
+def fvarianceResult : F1 := fun acc => do
+  let n ← Val.lenV acc
+  if n = .int 0 then pure (flit 0 1)
+  else
+    let m ← momentV acc (.int 0) 1
+    momentV acc m 2
+
 /-- rxsci/math/formal/variance.py (repaired: the state list is no longer cleared by the map) -/
 def fvariance (key : F1) (r : Bool) : Pipe :=
   .ofList [
     scan (fun acc i => do
       let k ← key i
-      match acc with
-      | .list l => pure (Val.lst (l.toList ++ [k]))
-      | _ => .error "AttributeError") (Val.lst []) r none,
-    map (fun acc => do
-      let xs := (acc.elems).getD []
-      if xs.length = 0 then pure (flit 0 1)
-      else
-        let m ← moment xs (.int 0) 1
-        moment xs m 2)]
+      toListAcc acc k) (Val.lst []) r none,
+    map fvarianceResult]
 
 def fstddev (key : F1) (r : Bool) : Pipe := (fvariance key r).append (.ofList [sqrtMap])
 
